@@ -15,7 +15,7 @@ class C21(dfir.DfirSpec):
         "closures restricted to a fixed total vocabulary in the correspondence check (theorems hold for all closures)",
         "not modelled (external effects or async completion order): source_file, source_stdin, source_json, "
         "source_interval, dest_sink*, dest_file, resolve_futures*, *_stream_blocking, scan_async_blocking; "
-        "not yet modelled: zip with mixed persistences, "
+        "not yet modelled: "
         "join_fused*, lattice_*, state/state_by, defer_signal",
     ]
     rule = ("catalogue program (one operator x persistence choice between source_stream sources and for_each sinks) "
